@@ -40,7 +40,7 @@ PROPS = {
         "assumptions": [],
     },
     "C05": {
-        "lean": ["Knut.Properties.C05", "Knut.Properties.C05Verdict"],
+        "lean": ["Knut.Properties.C05", "Knut.Properties.C05Verdict", "Knut.Properties.C05Inserts"],
         "level": "proof",
         "claim": "PARTIAL proof + metamorphic correspondence. Proved for all directive lists and all permutations of them: ofList_spec (the builder's days are sorted by date and each day holds "
                  "exactly the directives of its date, per kind, in input order), C05_same_dates, C05_same_day_content (per day and kind the contents are permutations of each other), "
@@ -65,8 +65,10 @@ PROPS = {
                  "C03_revaluation_error_if_price_vanished, C03_telescope (the exact identity Q_{d-1}p_{d-1} + (p_d - p_{d-1})Q_{d-1} + sum q_i p_d = Q_d p_d) and C03_trunc_error (each Truncate8 loses "
                  "less than one unit of the 8th decimal); Properties/C03Bound.lean: C03_trunc_close(_abs) (|Truncate_n r - r| < 10^-n), C03_mtm_bound and C03_mtm_bound_window (for every consistent single-position "
                  "valuation trace mirroring Valuate: |W - Q x p| <= steps x 1e-8, also relative to a window start), C03_adjustment_term / C03_adjustment_posting / C03_booked_term (the model's adjustment and booking "
-                 "values ARE the trace's terms). NOT mechanised: the association-list bookkeeping projecting Balance.valuateDay's state onto one position (so the bound is proved for the trace, and "
-                 "tied to the full model term by term). On every run Spec.mtm (exact, in Lean: sum over commodities of summed quantity x Prices.normalize price, no truncation) is compared with every A/L cell of the REAL "
+                 "values ARE the trace's terms); Properties/C03Bridge.lean: C03_valuateDay_position, C03_valuationRun_is_trace_run, C03_run_is_trace_run and C03_run_mtm_bound (Balance.run itself, projected on "
+                 "one A/L position with commodity other than V, is the trace run: |sum of the report inserts on (a,c) - Q x latest price| <= steps x 1e-8, for plain configurations with all days inside the window), "
+                 "C03_pipeline_mtm_bound_window (from any start state: the windowed form). Open: days outside the window in the Balance.run form, rendering of inserts into cells (C01/C02 machinery), closed form of "
+                 "the step count. On every run Spec.mtm (exact, in Lean: sum over commodities of summed quantity x Prices.normalize price, no truncation) is compared with every A/L cell of the REAL "
                  "`knut balance -v V --digits 10` report; valued reports are also compared byte for byte with the pipeline model. Known finding: with --from after a position was "
                  "acquired the report shows the value change inside the window, not the absolute mark-to-market (design behaviour).",
         "note": "Trusted: Lean kernel; axioms propext, Classical.choice, Quot.sound; price normalisation is C12's model (Knut.Model.Prices); text-table parsing of the harness (indentation -> account path).",
@@ -113,7 +115,10 @@ PROPS = {
         "claim": "Lean theorems over the model of the whole balance pipeline (check, ComputePrices, Valuate with daily value adjustments, Filter, CloseAccounts, Query, report totals): "
                  "C01_entries_cancel (for every journal made of posting pairs, every window/interval/--last/--diff/--close/--remap/-m level>=1, valued or not, without filters, the report inserts "
                  "selected by ANY predicate on (column, commodity) sum to zero), C01_delta_cells_zero, C01_delta_row_zero (every numeric cell of the rendered Delta rows is 0, cumulative or --diff), "
-                 "visible_of_levels (mapping levels >= 1 hide nothing), ofBookings_paired (what the loader builds is paired). The invariant 'every transaction reaching the Query stage is a list of "
+                 "visible_of_levels (mapping levels >= 1 hide nothing), ofBookings_paired (what the loader builds is paired); Properties/C01Table.lean: C01_table_delta (in the rendered table the rows between the last two "
+                 "separator rows are exactly the Delta block and all its numeric cells are 0), C01_command / C01_command_table (the same at the level of BalanceCmd.entries from a directive list: window clip, "
+                 "partition, closing days, pipeline), C01_create_paired and C01_loader_paired (everything transaction.Create produces, with or without @accrue, is paired), C01_loaded_journal (no hypothesis left for "
+                 "journals that come through the loader model). The invariant 'every transaction reaching the Query stage is a list of "
                  "cancelling posting pairs' is proved through valuation (Truncate is odd), adjustments, filtering and closing. Tie: `knut balance` (subprocess, text and CSV, valued and unvalued) "
                  "compared BYTE FOR BYTE with the model's rendering on generated journals x flag vectors; the Delta rows of the real output are parsed and checked to be zero on every case.",
         "note": "Trusted: Lean kernel; axioms propext, Classical.choice, Quot.sound; regexps restricted to the literal/anchored/alternation family the driver implements; cobra flag parsing; "
